@@ -222,6 +222,18 @@ def streams(rng, tier):
         e, _ = _gen_agg(rng, t, w, pool)
         labels.append({"op": "t", "e": e})
     out.append(("agg-labels", labels))
+    # the same kind of labels through the structure-keeping operations: a label stays the very object it was (the int 2019 does
+    # not become the text '2019').  Decided by the oracle alone (the model knows names as text only).
+    typed = []
+    OPS = ["scalar", "rscalar", "ttable_same", "ttable_unnamed", "slice", "mask", "sort", "copy", "colslice", "stack", "index",
+           "join", "setcol"]
+    for _ in range(200 if quick else 2000):
+        pool = []
+        for x in rng.sample(LAB, len(LAB)):
+            if x is None or isinstance(x, str) or all(isinstance(y, str) or y is None or y != x for y in pool):
+                pool.append(x)
+        typed.append({"op": "lab", "labels": [rng.choice(pool[:5]) for _ in range(rng.randint(1, 4))], "what": rng.choice(OPS)})
+    out.append(("typed-labels", typed))
     return out
 
 
@@ -260,6 +272,41 @@ def _same_names(k, pairs):
         now = _names(obj)
         if now != before:
             raise _OperandRenamed(f"operand-renamed: after {k} an operand's stored name(s) changed from {before} to {now}")
+
+
+def _probe_column_assignment(t):
+    """column replacement t.<accessor> = <named vector>, tried on a COPY of the table (the observed tree is untouched):
+    the vector that was assigned keeps its own stored name - a free-standing one, and a live column of the same table
+    (t.a = t.b leaves every OTHER column, b included, named as it was)"""
+    from serif import Vector
+    tc = t.copy()
+    cols = tc.cols()
+    if not cols or len(tc) == 0:
+        return
+    try:
+        cmap = tc._build_column_map()
+    except Exception:                                        # noqa: BLE001
+        return
+    acc = {v: k for k, v in reversed(list(cmap.items()))}
+    for j in range(len(cols)):
+        if j not in acc:
+            continue
+        w = Vector(list(range(len(tc))), name="kept src")
+        before_t = _names(tc)
+        setattr(tc, acc[j], w)
+        _same_names("t.col = v", [(w, {"v": "kept src"})])
+        after = _names(tc)["t"]
+        if [n for i, n in enumerate(after) if i != j] != [n for i, n in enumerate(before_t["t"]) if i != j]:
+            raise _OperandRenamed(f"operand-renamed: after t.{acc[j]} = v the OTHER columns are named {after}, were {before_t['t']}")
+        if len(cols) >= 2:
+            o = (j + 1) % len(cols)
+            src = tc.cols()[o]
+            src_before, names_before = _names(src), _names(tc)["t"]
+            setattr(tc, acc[j], src)
+            if _names(tc.cols()[o]) != src_before or [n for i, n in enumerate(_names(tc)["t"]) if i != j] != \
+                    [n for i, n in enumerate(names_before) if i != j]:
+                raise _OperandRenamed(f"operand-renamed: after t.{acc[j]} = t.<column {o}> the columns are named "
+                                      f"{_names(tc)['t']}, were {names_before} (only column {j} was assigned)")
 
 
 def _names(x):
@@ -357,6 +404,7 @@ def ev_t(e, rec, path=""):
             r = Table({nm: [j + i for i in range(3)] for j, nm in enumerate(e[1])})
         else:
             r = Table([_vec(3, nm, j) for j, nm in enumerate(e[1])])
+        _probe_column_assignment(r)
     elif k == "tofvecs":
         xs = [ev_v(c[2], rec, path + f"{i}.") for i, c in enumerate(e[1])]
         m = min(len(x) for x in xs)
@@ -459,8 +507,59 @@ def _meta():
     return {"reserved": sorted(_get_reserved_names()), "routed": (2 * t).column_names() == ["a"]}
 
 
+def _tag(n):
+    return None if n is None else [type(n).__name__, repr(n)]
+
+
+def _observe_lab(case):
+    import operator
+    from serif import Table, Vector
+    labels, what = case["labels"], case["what"]
+    n = 3
+    t = Table([Vector([10 * j + i for i in range(n)], name=lab) for j, lab in enumerate(labels)])
+    want = list(labels)
+    if what == "scalar":
+        r = t * 2
+    elif what == "rscalar":
+        r = 2 * t
+    elif what == "ttable_same":
+        r = t + t
+    elif what == "ttable_unnamed":
+        r = t - Table([Vector([1] * n) for _ in labels])
+    elif what == "slice":
+        r = t[0:2]
+    elif what == "mask":
+        r = t[[True, False, True]]
+    elif what == "index":
+        r = t[[2, 0]]
+    elif what == "sort":
+        r = t.sort_by(t.cols()[0], reverse=True)
+    elif what == "copy":
+        r = t.copy()
+    elif what == "colslice":
+        r = t[:, 0:max(1, len(labels) - 1)]
+        want = want[:max(1, len(labels) - 1)]
+    elif what == "stack":
+        r = t >> Vector([7] * n, name=labels[-1])
+        want = want + [labels[-1]]
+    elif what == "join":
+        o = Table([Vector(list(range(n)), name="k2"), Vector([5] * n, name=labels[0])])
+        r = (Table([Vector(list(range(n)), name="k1")]) >> t).join(o, "k1", "k2")
+        want = ["k1"] + want + ["k2", labels[0]]
+    else:
+        r = t.copy()
+        cmap = r._build_column_map()
+        acc = next(k for k, v in cmap.items() if v == 0)
+        setattr(r, acc, Vector([0] * n, name="other"))
+    got = list(r.column_names())
+    return {"lab": True, "got": [_tag(x) for x in got], "want": [_tag(x) for x in want],
+            "src": [_tag(x) for x in t.column_names()], "src_want": [_tag(x) for x in labels]}
+
+
 def observe(case):
     try:
+        if case["op"] == "lab":
+            return _observe_lab(case)
         if case["op"] == "meta":
             return _meta()
         rec = []
@@ -640,7 +739,7 @@ def _ascii(n):
 def emit(case, obs):
     if "exc" in obs:
         return "CBad"
-    if case["op"] == "meta":
+    if case["op"] in ("meta", "lab"):
         return "CSkip"
     if "skip" in obs:
         return "CSkip"
@@ -709,6 +808,13 @@ def _agg_ok(e, src, got):
 def oracle(case, obs):
     if "exc" in obs:
         return f"raises: {obs['msg']}"
+    if case["op"] == "lab":
+        if obs["got"] != obs["want"]:
+            return (f"typed-labels: {case['what']} on a table labelled {obs['src_want']} gives columns labelled {obs['got']}; "
+                    f"the stored labels are kept as they are: {obs['want']}")
+        if obs["src"] != obs["src_want"]:
+            return f"typed-labels: {case['what']} changed the labels of its operand to {obs['src']}, were {obs['src_want']}"
+        return None
     if case["op"] == "meta" or "skip" in obs:
         return None
     nodes = _nodes(case)
@@ -792,6 +898,8 @@ _ALLK = {"lit", "bin", "bins", "cmp", "cmps", "keep", "copyas", "drop", "col", "
 
 
 def nontrivial(case, obs):
+    if case["op"] == "lab":
+        return "exc" not in obs and any(not isinstance(x, str) and x is not None for x in case["labels"])
     if case["op"] == "meta" or "skip" in obs or "exc" in obs:
         return False
     nodes = _nodes(case)
@@ -806,10 +914,17 @@ def describe(case, obs, stream):
         return [f"{stream}:skipped"]
     if case["op"] == "meta":
         return []
+    if case["op"] == "lab":
+        return [f"typed-labels:{case['what']}"]
     return list({f"{stream}:{e[0]}" + (f"-{e[1]}" if e[0] in ("keep", "tkeep", "join") else "") for _, e in _nodes(case)})
 
 
 def shrink(case):
+    if case["op"] == "lab":
+        for i in range(len(case["labels"])):
+            if len(case["labels"]) > 1:
+                yield dict(case, labels=case["labels"][:i] + case["labels"][i + 1:])
+        return
     if case["op"] == "meta":
         return
     e = case["e"]
